@@ -415,6 +415,7 @@ type lval struct {
 	gvar  string // ghost variable name
 	raw   bool   // element of a slice of invariant-bearing structs (or reached through a raw pointer)
 	rawC  *Term  // condition under which the access is raw (nil = always)
+	elemOf types.Type // set when the location is a slice element: the element type
 }
 
 // loadLval reads the location, honouring raw access.
@@ -470,7 +471,7 @@ func (fx *fctx) evalLval(st *State, x ast.Expr) *lval {
 			sv := fx.eval(st, x.X)
 			idx := fx.evalInt(st, x.Index)
 			fx.check(st, "index", abbrev(e.exprStr(x)), e.ts.And(e.ts.Le(e.ts.Int(0), idx), e.ts.Lt(idx, sv.Sl.Len)), x, "index in range")
-			return &lval{addr: e.ts.Add(sv.Sl.Ptr, idx), t: u.Elem(), raw: e.isRawElem(u.Elem())}
+			return &lval{addr: e.ts.Add(sv.Sl.Ptr, idx), t: u.Elem(), raw: e.isRawElem(u.Elem()), elemOf: u.Elem()}
 		case *types.Array:
 			base := fx.evalLval(st, x.X)
 			idx := fx.evalInt(st, x.Index)
@@ -564,6 +565,12 @@ func (fx *fctx) assign(st *State, lv *lval, v *Value, n ast.Node) {
 	}
 	v = fx.convertForAssign(st, v, lv.t)
 	if lv.addr != nil {
+		if lv.elemOf != nil && lv.key == "" && e.nonNilElem(lv.elemOf) && v.Tm != nil && !fx.spec {
+			fx.check(st, "elem-nonnil", "", e.ts.Ne(v.Tm, e.ts.Int(0)), n, "value stored into a slice element is not nil")
+		}
+		if v.Sl != nil {
+			fx.publishSlice(st, v, n, "store")
+		}
 		saved, savedC := fx.rawAccess, fx.rawCond
 		if lv.raw {
 			fx.rawAccess = true
@@ -930,6 +937,9 @@ func (fx *fctx) evalIndex(st *State, x *ast.IndexExpr) *Value {
 		fx.check(st, "index", abbrev(e.exprStr(x)), ts.And(ts.Le(ts.Int(0), idx), ts.Lt(idx, sv.Sl.Len)), x, "index in range")
 		v := fx.loadLval(st, &lval{addr: ts.Add(sv.Sl.Ptr, idx), t: u.Elem(), raw: e.isRawElem(u.Elem())})
 		fx.onRead(st, v, x)
+		if !fx.spec && e.nonNilElem(u.Elem()) && v.Tm != nil && !fx.isMade(sv.Sl.Ptr) {
+			st.assume(ts.Ne(v.Tm, ts.Int(0)))
+		}
 		if tab := fx.funcTableOf(x.X); tab != nil {
 			v = &Value{T: v.T, Tm: v.Tm, Table: &funcTable{Global: tab.Global, Idx: idx, Entries: tab.Entries}}
 			// every entry of the table is a declared function: the value is not nil
@@ -955,6 +965,12 @@ func (fx *fctx) evalIndex(st *State, x *ast.IndexExpr) *Value {
 		fx.eval(st, x.Index)
 		v := e.havocValue(st, u.Elem(), "mapval")
 		fx.onRead(st, v, x)
+		if v.Tm != nil && v.Tm.Sort == SInt {
+			if g := fx.mapValsFact(st, x.X, v); g != nil {
+				// a missing key yields the zero value
+				st.assume(ts.Or(ts.Eq(v.Tm, ts.Int(0)), g))
+			}
+		}
 		return v
 	case *types.Signature:
 		// generic instantiation
